@@ -20,6 +20,12 @@ Magnitudes: every entry is exactly 0 or 1e-100 <= |v| <= 1e100.  Then no interme
 (non-zero differences of such doubles are >= 1e-117 in magnitude, their squares >= 1e-234 > 2.3e-308; sums of <= 130
 squares are <= 5.2e202 < 1.8e308), which is the side condition of the standard model.
 
+SHIFTED FAMILY (Props/C06_rounding_shift.v, theorem C06_rounding_shift_table): for 19 decorated identifiers on non-negative
+user vectors the theorem compares with the closed form at the arguments the decorator hands to the body,
+x' = fl(x + 1e-20), y' = fl(y + 1e-20) (computed here by the same float64 addition), with the factor
+(1+u)^p / (1-u)^q - 1.  Entries are exactly 0 or 1e-60 <= v <= 1e60 (zeros become 1e-20 behind the decorator; quotients
+like (x-y)^2 (x+y) / (x y) and (x-y)^2 / min(x,y)^2 then stay between 1e-273 and 1e203: normal range).
+
 Information only (never a violation): squared_chord / matusita / hellinger are REFUTED in the model
 (C06_rounding_squared_chord_refuted); the binary64 witness x = [1.0], y = [1.0 + 2^-52] is evaluated and recorded.
 """
@@ -39,14 +45,15 @@ PROPS = os.path.join(COQ, "theories", "Props", "C06_rounding.v")
 PREC = 200
 ALL_LENGTHS = list(range(1, 131))
 QUICK_LENGTHS = list(range(1, 13)) + [15, 16, 17, 24, 31, 32, 33, 63, 64, 65, 100, 127, 128, 129, 130]
-_EXPR_OK = re.compile(r"^[n0-9+/() ]+$")
+_EXPR_OK = re.compile(r"^[n0-9+\-/() ]+$")
+PROPS_SHIFT = os.path.join(COQ, "theories", "Props", "C06_rounding_shift.v")
 
 
 # ----------------------------------------------------------------------------------------------
 # reading the theorems
 
-def _source():
-    src = open(PROPS).read()
+def _source(path=None):
+    src = open(path or PROPS).read()
     return re.sub(r"\(\*.*?\*\)", " ", src, flags=re.S)
 
 
@@ -122,6 +129,59 @@ def coq_exponents(names, lengths):
     return res
 
 
+def _split_pair(text):
+    """'(P, Q)' -> (P, Q) split at the top-level comma"""
+    t = text.strip()
+    assert t.startswith("(") and t.endswith(")"), text
+    t = t[1:-1]
+    depth = 0
+    for i, ch in enumerate(t):
+        depth += ch == "("
+        depth -= ch == ")"
+        if ch == "," and depth == 0:
+            return t[:i], t[i + 1:]
+    raise ValueError("no pair in %r" % text)
+
+
+def table_shift():
+    """{identifier: (python expr of p(n), python expr of q(n))} as stated by C06_rounding_shift_table"""
+    st = _statement(_source(PROPS_SHIFT), "C06_rounding_shift_table")
+    out = {}
+    for name, e in re.findall(r'rdepthq_name\s+NonNeg\s+"([a-z0-9_]+)_distance"\s+n\s*=\s*Some\s+(.*?)\s*(?=/\\|$)', st, flags=re.S):
+        pe, qe = _split_pair(e.rstrip(". \n"))
+        out[name] = (_expr(pe, "n"), _expr(qe, "n"))
+    return out
+
+
+def coq_exponents_shift(names, lengths):
+    """rdepthq_name NonNeg evaluated by coqc: {name: {n: (p, q) or None}}; None if coqc fails"""
+    d = os.path.join(BUILD, "c06_rounding")
+    os.makedirs(d, exist_ok=True)
+    f = os.path.join(d, "Rdepthq_eval.v")
+    with open(f, "w") as fh:
+        fh.write("From Coq Require Import String List.\nFrom OPF Require Import Model.MetricRnd Model.MetricRdepthQ.\nImport ListNotations.\n"
+                 "Open Scope string_scope.\n")
+        fh.write("Eval vm_compute in (map (fun f => map (fun n => match rdepthq_name NonNeg f n with Some (p, q) => [S p; q] | None => [O; O] end) [%s]) [%s]).\n"
+                 % ("; ".join(str(n) for n in lengths), "; ".join('"%s_distance"' % n for n in names)))
+    rc, out = sh(["coqc", "-Q", os.path.join(COQ, "theories"), "OPF", f], timeout=600)
+    if rc != 0:
+        return None
+    m = re.search(r"=\s*(\[.*\])\s*:\s*list \(list \(list nat\)\)", out, flags=re.S)
+    if not m:
+        return None
+    nums = [int(v) for v in re.findall(r"\d+", m.group(1))]
+    if len(nums) != 2 * len(names) * len(lengths):
+        return None
+    res, i = {}, 0
+    for name in names:
+        res[name] = {}
+        for n in lengths:
+            p1, q = nums[i], nums[i + 1]
+            i += 2
+            res[name][n] = (p1 - 1, q) if p1 > 0 else None
+    return res
+
+
 # ----------------------------------------------------------------------------------------------
 # inputs: every entry is exactly 0 or 1e-100 <= |v| <= 1e100
 
@@ -166,6 +226,46 @@ def gen_pair(rng, n, style):
     return x, y
 
 
+def gen_pair_nonneg(rng, n, style):
+    """non-negative vectors, entries exactly 0 or 1e-60 <= v <= 1e60"""
+    if style == "plain":
+        x = [rng.uniform(0.01, 8) for _ in range(n)]
+        y = [rng.uniform(0.01, 8) for _ in range(n)]
+    elif style == "wide":
+        x = [_mag(rng, -60, 60) for _ in range(n)]
+        y = [_mag(rng, -60, 60) for _ in range(n)]
+    elif style == "scaled":
+        s = 10.0 ** rng.randint(-55, 55)
+        x = [rng.uniform(1e-3, 8) * s for _ in range(n)]
+        y = [rng.uniform(1e-3, 8) * s for _ in range(n)]
+    elif style == "near":
+        x = [_mag(rng, -3, 3) for _ in range(n)]
+        y = [a * (1.0 + rng.choice([0.0, 2.0 ** -52, 3 * 2.0 ** -52, 1e-12, 1e-6])) for a in x]
+    elif style == "tenths":
+        a, b = rng.choice([(0.1, 0.3), (0.3, 0.1), (1.1, 0.4), (0.7, 0.2)])
+        x, y = [a] * n, [b] * n
+    elif style == "ints":
+        x = [float(rng.randint(0, 4)) for _ in range(n)]
+        y = [float(rng.randint(0, 4)) for _ in range(n)]
+    elif style == "zeros":
+        x = [rng.choice([0.0, rng.uniform(0.01, 8)]) for _ in range(n)]
+        y = [a if rng.random() < 0.5 else rng.choice([0.0, rng.uniform(0.01, 8)]) for a in x]
+    elif style == "prob":
+        x = [rng.uniform(0.05, 1.0) for _ in range(n)]
+        y = [rng.uniform(0.05, 1.0) for _ in range(n)]
+        sx, sy = sum(x), sum(y)
+        x, y = [a / sx for a in x], [b / sy for b in y]
+    elif style == "small":         # below 1e-4: the shift is visible in binary64 (x + 1e-20 != x)
+        x = [rng.choice([0.0, 1e-21, 3e-20, rng.uniform(1e-19, 1e-5)]) for _ in range(n)]
+        y = [rng.choice([0.0, 1e-21, 3e-20, rng.uniform(1e-19, 1e-5)]) for _ in range(n)]
+    else:
+        raise ValueError(style)
+    for v in x + y:
+        assert v == 0.0 or 1e-60 <= v <= 1e60, v
+    return x, y
+
+
+STYLES_NONNEG = ["plain", "wide", "scaled", "near", "tenths", "ints", "zeros", "prob", "small"]
 STYLES = ["plain", "wide", "scaled", "near", "tenths", "ints", "zeros", "decreasing", "increasing"]
 
 
@@ -187,6 +287,15 @@ class Exact:
 
     def value(self, name, x, y):
         return Decimal(metric_ref.reference(name, self.ops, x, y))
+
+    def value_at(self, name, xs, ys):
+        """the closed form WITHOUT the EPSILON shift, at the float arguments xs, ys"""
+        f = metric_ref.TABLE[name][0]
+        return Decimal(f(self.ops, [self.ops.of_float(a) for a in xs], [self.ops.of_float(b) for b in ys]))
+
+    def factor2(self, p, q):
+        """(1 + u)^p / (1 - u)^q - 1"""
+        return (1 + self.u) ** p / (1 - self.u) ** q - 1
 
     def factor(self, k):
         """(1 + u)^k - 1, to PREC digits"""
@@ -214,6 +323,76 @@ def check_one(ex, name, fn, kexpr, x, y):
     err_u = float(err / (exact * ex.u)) if exact != 0 else (0.0 if err == 0 else float("inf"))
     ratio = float(err / bound) if bound != 0 else (0.0 if err == 0 else float("inf"))
     return ok, dict(k=k, got=got, exact=float(exact), err_in_u=err_u, ratio=ratio)
+
+
+def check_one_shift(ex, name, fn, pq, x, y):
+    n = len(x)
+    p, q = k_of(pq[0], n), k_of(pq[1], n)
+    got, note = call_impl(fn, x, y)
+    xs = [float(v) for v in (np.array(x, dtype=np.float64) + 1e-20)]      # what the decorator hands to the body
+    ys = [float(v) for v in (np.array(y, dtype=np.float64) + 1e-20)]
+    try:
+        exact = ex.value_at(name, xs, ys)
+    except (ArithmeticError, ValueError) as e:
+        return None, dict(p=p, q=q, got=got, exact=None, note="reference undefined: %s" % e)
+    if got is None or not math.isfinite(got):
+        return False, dict(p=p, q=q, got=got if got is not None else note, exact=float(exact), err_in_u=None, ratio=None)
+    err = abs(Decimal(got) - exact)
+    bound = ex.factor2(p, q) * exact
+    ok = err <= bound
+    err_u = float(err / (exact * ex.u)) if exact != 0 else (0.0 if err == 0 else float("inf"))
+    ratio = float(err / bound) if bound != 0 else (0.0 if err == 0 else float("inf"))
+    return ok, dict(p=p, q=q, got=got, exact=float(exact), err_in_u=err_u, ratio=ratio)
+
+
+def run_shift(rep, D, tier, seed, ex, lengths):
+    tab = table_shift()
+    names = sorted(tab)
+    rep.obligation("Props/C06_rounding_shift.v: C06_rounding_shift_table states (p, q)(n) for 19 registered decorated identifiers",
+                   len(tab) == 19 and all(n in D for n in names), "read: %r" % tab)
+    if vo_ok("Model/MetricRdepthQ"):
+        cq = coq_exponents_shift(names, ALL_LENGTHS)
+        bad = [] if cq is None else [(nm, n, cq[nm][n]) for nm in names for n in ALL_LENGTHS
+                                     if cq[nm][n] != (k_of(tab[nm][0], n), k_of(tab[nm][1], n))]
+        rep.obligation("coqc: rdepthq_name NonNeg f n evaluates to the table's (p, q)(n) for the 19 identifiers, n = 1..130",
+                       cq is not None and not bad, "coqc failed" if cq is None else "%r" % bad[:5])
+    else:
+        rep.obligation("coqc: rdepthq_name NonNeg f n evaluates to the table's (p, q)(n)", False, "Model/MetricRdepthQ.vo not built")
+    rng = random.Random(seed + 607)
+    reps = 1 if tier == "quick" else 3
+    per = {n: dict(cases=0, skipped=0, max_err_in_u=0.0, max_ratio_to_bound=0.0, pq={}) for n in names}
+    bad_seen = set()
+    cases = 0
+    for name in names:
+        fn = D[name]
+        for n in lengths:
+            for style in STYLES_NONNEG:
+                for _ in range(reps):
+                    x, y = gen_pair_nonneg(rng, n, style)
+                    ok, info = check_one_shift(ex, name, fn, tab[name], x, y)
+                    p = per[name]
+                    if ok is None:
+                        p["skipped"] += 1
+                        continue
+                    cases += 1
+                    p["cases"] += 1
+                    if n in (1, 2, 8, 130):
+                        p["pq"][n] = [info["p"], info["q"]]
+                    if info["err_in_u"] is not None and math.isfinite(info["err_in_u"]):
+                        p["max_err_in_u"] = max(p["max_err_in_u"], info["err_in_u"])
+                        p["max_ratio_to_bound"] = max(p["max_ratio_to_bound"], info["ratio"])
+                    rep.count_case(("rounding_shift", name, tuple(x), tuple(y)), info["exact"] != 0 and x != y)
+                    if not ok and name not in bad_seen:
+                        bad_seen.add(name)
+                        rep.violation("%s: |value - closed form at (x + 1e-20, y + 1e-20)| exceeds ((1+u)^%d / (1-u)^%d - 1) * exact on vectors "
+                                      "of length %d: value=%r exact=%r (error %s u, %s x the bound)"
+                                      % (name, info["p"], info["q"], n, info["got"], info["exact"], info["err_in_u"], info["ratio"]),
+                                      dict(kind="rounding", shifted=True, name=name, x=x, y=y, p=info["p"], q=info["q"], got=info["got"],
+                                           exact=info["exact"], style=style), key="rounding_shift:%s" % name)
+    rep.corr["rounding_bound_oracle_shifted"] = dict(
+        cases=cases, disagreements=len(bad_seen),
+        distribution=dict(styles=STYLES_NONNEG, per_identifier=per,
+                          magnitude_range="non-negative entries, 0 or 1e-60 <= v <= 1e60; reference at fl(x + 1e-20), fl(y + 1e-20)"))
 
 
 def run(rep, D, tier, seed):
@@ -268,6 +447,7 @@ def run(rep, D, tier, seed):
                                                                             info["err_in_u"], info["ratio"]),
                                           dict(kind="rounding", name=name, x=x, y=y, k=info["k"], got=info["got"],
                                                exact=info["exact"], style=style), key="rounding:%s" % name)
+        run_shift(rep, D, tier, seed, ex, lengths)
         # information: the refuted family in binary64
         refuted = {}
         x, y = [1.0], [1.0 + 2.0 ** -52]
@@ -286,12 +466,23 @@ def run(rep, D, tier, seed):
 
 def replay(r, D):
     """re-run one recorded bound violation; 0 = the bound holds on the recorded input"""
-    tab = table()
     name = r["name"]
+    x, y = [float(v) for v in r["x"]], [float(v) for v in r["y"]]
+    if r.get("shifted"):
+        tabs = table_shift()
+        if name not in tabs or name not in D:
+            print("replay: %r has no stated shifted rounding bound" % name)
+            return 0
+        with Exact() as ex:
+            ok, info = check_one_shift(ex, name, D[name], tabs[name], x, y)
+        print("replay: %s n=%d (p, q)=(%d, %d) value=%r closed form at shifted arguments=%r error=%s u, %s x the bound -> %s"
+              % (name, len(x), info["p"], info["q"], info["got"], info["exact"], info.get("err_in_u"), info.get("ratio"),
+                 "within" if ok else "EXCEEDS"))
+        return 0 if ok else 1
+    tab = table()
     if name not in tab or name not in D:
         print("replay: %r has no stated rounding bound" % name)
         return 0
-    x, y = [float(v) for v in r["x"]], [float(v) for v in r["y"]]
     with Exact() as ex:
         ok, info = check_one(ex, name, D[name], tab[name], x, y)
     print("replay: %s n=%d k=%d value=%r exact=%r error=%s u, %s x the bound -> %s"
